@@ -351,6 +351,10 @@ func (g *G) code(allowNL bool) Code {
 			sb.WriteString(" ")
 		case 2:
 			sb.WriteString(string("*_[]<>&\\"[g.s.Intn(8)]))
+			if coin(g.s, 1, 10) {
+				sb.WriteString("\x00")
+				nulCount++
+			}
 		default:
 			sb.WriteString(g.word())
 		}
@@ -557,7 +561,7 @@ func caseVariant(s Src, lab string) string {
 
 // ---------------- blocks ----------------
 
-var labelNLCount, nearMissCount, longTextCount, emptyItemCount, notLinkCount, codeNLCount, altAutoCount, longLabelCount, nearDefCount int
+var labelNLCount, nearMissCount, longTextCount, emptyItemCount, notLinkCount, codeNLCount, altAutoCount, longLabelCount, nearDefCount, nulCount int
 
 var notLinks = [][2]string{
 	{"[zzn](<x<y>)", "[zzn](&lt;x<y>)"}, {"![zzn](<x<y>)", "![zzn](&lt;x<y>)"}, {"[zzn](a b)", "[zzn](a b)"},
@@ -600,6 +604,10 @@ func (g *G) codeLine0() string {
 			sb.WriteString("  ")
 		case 1:
 			sb.WriteString("<&>\"")
+			if coin(g.s, 1, 6) {
+				sb.WriteString("\x00") // NUL: written as U+FFFD
+				nulCount++
+			}
 		case 2:
 			sb.WriteString("*x*")
 		case 3:
